@@ -898,8 +898,9 @@ LAW_MODELS = ["name_PlackettLuce", "short_name_PlackettLuce", "name_Cumulative",
 def gen_law_case(rnd, i):
     model = LAW_MODELS[i % len(LAW_MODELS)]
     nb = 2 if model in ("AlternatingCrossover", "CambridgeSampler", "slate_BradleyTerry") else None
-    p = bp.gen_params(rnd, nblocs=nb, max_slate=3)
-    case = {"kind": "law", "model": model, "params": p, "N": rnd.choice([1, 3, 6, 9]), "seed": rnd.randrange(10 ** 6)}
+    big = model in ("name_PlackettLuce", "short_name_PlackettLuce", "name_Cumulative", "slate_PlackettLuce") and rnd.random() < 0.05
+    p = bp.gen_params(rnd, nblocs=nb, max_slate=8 if big else 3)
+    case = {"kind": "law", "model": model, "params": p, "N": rnd.choice([1, 3, 6, 9] if not big else [12, 40]), "seed": rnd.randrange(10 ** 6)}
     n = len(bp.all_cands(p))
     if model == "short_name_PlackettLuce":
         case["extra"] = {"ballot_length": rnd.randint(1, n)}
